@@ -65,7 +65,39 @@ func checkWriteAnyFraming(c *Ctx, r *Run) {
 		return
 	}
 	r.Analysed(c.FuncName(fn))
-	recv := fn.Params[0]
+	// the framing may live in a helper method of Hash called once per item (writeItem): analyse the function that
+	// actually writes to the underlying hasher
+	frame := fn
+	{
+		writes := func(f *ssa.Function) int {
+			n := 0
+			allInstrs(f, func(in ssa.Instruction) {
+				if call, ok := in.(*ssa.Call); ok {
+					if cal := call.Call.StaticCallee(); cal != nil && (cal.Name() == "Write" || cal.Name() == "WriteString") && len(call.Call.Args) == 2 {
+						if ld, ok := call.Call.Args[0].(*ssa.UnOp); ok {
+							if fa, ok := ld.X.(*ssa.FieldAddr); ok && len(f.Params) > 0 && fa.X == ssa.Value(f.Params[0]) {
+								n++
+							}
+						}
+					}
+				}
+			})
+			return n
+		}
+		if writes(fn) == 0 {
+			var cands []*ssa.Function
+			allInstrs(fn, func(in ssa.Instruction) {
+				if cal := staticCallee(in); cal != nil && cal.Signature.Recv() != nil && namedOf(derefType(cal.Signature.Recv().Type())) == namedOf(derefType(fn.Signature.Recv().Type())) && writes(cal) > 0 {
+					cands = append(cands, cal)
+				}
+			})
+			if len(cands) == 1 {
+				frame = cands[0]
+				r.Analysed(c.FuncName(frame))
+			}
+		}
+	}
+	recv := frame.Params[0]
 	isSink := func(in ssa.Instruction) (arg ssa.Value, ok bool) {
 		call, isCall := in.(*ssa.Call)
 		if !isCall {
@@ -105,7 +137,7 @@ func checkWriteAnyFraming(c *Ctx, r *Run) {
 		return nil, 0
 	}
 	nVar := 0
-	allInstrs(fn, func(in ssa.Instruction) {
+	allInstrs(frame, func(in ssa.Instruction) {
 		arg, ok := isSink(in)
 		if !ok {
 			return
